@@ -351,7 +351,11 @@ where
                     Action::Accept => {
                         only_reduces = false;
                     }
-                    Action::Error => (),
+                    Action::Error => {
+                        // A %nonassoc resolution may have turned a cell whose bit was set when
+                        // it was first written back into an error.
+                        state_actions.set(off, false);
+                    }
                 }
             }
 
